@@ -21,7 +21,7 @@ const int LENS[24] = {
     // large (>= 2^14): powers of two, composites, one 2p-free odd composite
     16384, 32768, 65536, 20480, 24576, 18432, 28672, 49152,
     // medium
-    1024, 2048, 4096, 8192, 1000, 3000, 6561, 5000,
+    1024, 2048, 4096, 8192, 1000, 13230, 6561, 22050,   // (13230, 22050, 6562: even but not divisible by 4 - irfft has a branch of its own there)
     // small, every algorithm class
     8, 64, 60, 105, 94, 41, 47, 257};
 const char* len_class(int i) { return i < 8 ? "large" : i < 16 ? "medium" : "small"; }
@@ -152,10 +152,10 @@ static void churn_gen(Ctx& ctx) {
 namespace {
 uint64_t hbi(const arr_int& a) { uint64_t h = 0xC09B; for (int i = 0; i < a.size(); ++i) h = mix(h, uint64_t(uint32_t(a[i]))); return mix(h, uint64_t(a.size())); }
 uint64_t hd(double v) { uint64_t u; memcpy(&u, &v, 8); return u; }
-const int FF_NFN = 20;
+const int FF_NFN = 21;
 const char* ff_name(int f) {
     static const char* n[FF_NFN] = {"kaiser", "gauss", "tukey", "hamming/hann", "fir1", "design_multirate_fir", "primes", "factor", "nextprime/isprime", "resample(n,beta)", "czt", "hilbert", "welch", "xcorr",
-                                    "randn()", "rand()", "randi(int)", "randi(range)", "rand(range,n)", "randi(int,n)"};
+                                    "randn()", "rand()", "randi(int)", "randi(range)", "rand(range,n)", "randi(int,n)", "irfft(n = 2 mod 4, several thousand)"};
     return n[f % FF_NFN];
 }
 uint64_t ff_call(int fn, int a, int b, uint64_t tag) {
@@ -180,7 +180,8 @@ uint64_t ff_call(int fn, int a, int b, uint64_t tag) {
     case 16: return uint64_t(uint32_t(randi(1 + a)));
     case 17: return uint64_t(uint32_t(randi({-5 - a, 5 + b})));
     case 18: return hb(dsplib::rand({-1.0 - a, 2.0 + b}, 3 + b));
-    default: return hbi(randi(1 + a, 3 + b));
+    case 19: return hbi(randi(1 + a, 3 + b));
+    default: { static const int ms[6] = {4098, 6562, 10002, 13230, 22050, 4102}; const int m = ms[(a + b) % 6]; return hb(irfft(cin(m / 2 + 1, tag), m)); }   // even, not divisible by 4
     }
 }
 }   // namespace
@@ -248,7 +249,7 @@ static void ffc_gen(Ctx& ctx) {
                 ops.push_back(fn);
                 ops.push_back(pick(0, 40));
                 ops.push_back(pick(0, 12));
-                ops.push_back(int(pick_log(50, (fn >= 6 && fn <= 13 && fn != 8) ? 400 : 4000)));
+                ops.push_back(int(pick_log(50, ((fn >= 6 && fn <= 13 && fn != 8) || fn == 20) ? 400 : 4000)));
             }
             threads.push(Json(ops));
         }
